@@ -26,10 +26,32 @@ def digraphs(n):
         yield [list(p) for k, p in enumerate(pairs) if mask >> k & 1]
 
 
+_ORDER = {"rng": None}
+
+
+def scramble_insertions(rng):
+    """From now on mk_graph / mk_bipartite / mk_digraph insert the edges in a random order (and,
+    for simple graphs, random orientation): the abstract graph handed to the specification is the
+    same, only the history that built the implementation's object differs."""
+    _ORDER["rng"] = rng
+
+
+def _order(edges, flip=False):
+    rng = _ORDER["rng"]
+    es = [tuple(e) for e in edges]
+    if rng is None:
+        return es
+    es = list(es)
+    rng.shuffle(es)
+    if flip:
+        es = [(v, u) if rng.random() < .5 else (u, v) for u, v in es]
+    return es
+
+
 def mk_graph(n, edges):
     from cnfgen.graphs import Graph
     G = Graph(n)
-    for u, v in edges:
+    for u, v in _order(edges, flip=True):
         G.add_edge(u, v)
     return G
 
@@ -37,7 +59,7 @@ def mk_graph(n, edges):
 def mk_bipartite(L, R, edges):
     from cnfgen.graphs import BipartiteGraph
     B = BipartiteGraph(L, R)
-    for u, v in edges:
+    for u, v in _order(edges):
         B.add_edge(u, v)
     return B
 
@@ -45,7 +67,7 @@ def mk_bipartite(L, R, edges):
 def mk_digraph(n, edges):
     from cnfgen.graphs import DirectedGraph
     D = DirectedGraph(n)
-    for u, v in edges:
+    for u, v in _order(edges):
         D.add_edge(u, v)
     return D
 
